@@ -55,6 +55,16 @@ type opT struct {
 	lk   int    // lk
 	rep  repT   // rp
 	f    bool   // rl
+	// mg with a fault script for the initial fetch: fr = Metadata.Retry.Max, fatts = one entry per attempt
+	hasF  bool
+	fr    int
+	fatts []fattT
+}
+
+// one scripted attempt of the initial OffsetFetch
+type fattT struct {
+	lk  bool
+	ans string // ok nc ld fe x k<code>
 }
 
 type repT struct {
@@ -130,6 +140,13 @@ func (a attT) String() string {
 func (o opT) String() string {
 	switch o.kind {
 	case "mg", "nx", "ac":
+		if o.kind == "mg" && o.hasF {
+			s := fmt.Sprintf("mg %d f %d", o.p, o.fr)
+			for _, a := range o.fatts {
+				s += " " + b01(a.lk) + a.ans
+			}
+			return s
+		}
 		return fmt.Sprintf("%s %d", o.kind, o.p)
 	case "mk", "rs":
 		return fmt.Sprintf("%s %d %d %d", o.kind, o.p, o.o, o.m)
@@ -247,6 +264,30 @@ func parseCase(line string) (*caseT, bool) {
 		switch {
 		case (t[0] == "mg" || t[0] == "nx" || t[0] == "ac") && len(t) == 2:
 			o.p = hlib.Atoi(t[1])
+		case t[0] == "mg" && len(t) >= 4 && t[2] == "f":
+			o.p = hlib.Atoi(t[1])
+			o.hasF = true
+			fr, err := strconv.Atoi(t[3])
+			if err != nil || fr < 0 {
+				return nil, false
+			}
+			o.fr = fr
+			for _, a := range t[4:] {
+				if len(a) < 2 || (a[0] != '0' && a[0] != '1') {
+					return nil, false
+				}
+				ans := a[1:]
+				switch {
+				case ans == "ok" || ans == "nc" || ans == "ld" || ans == "fe" || ans == "x":
+				case strings.HasPrefix(ans, "k"):
+					if _, err := strconv.Atoi(ans[1:]); err != nil {
+						return nil, false
+					}
+				default:
+					return nil, false
+				}
+				o.fatts = append(o.fatts, fattT{lk: a[0] == '1', ans: ans})
+			}
 		case (t[0] == "mk" || t[0] == "rs") && len(t) == 4:
 			o.p = hlib.Atoi(t[1])
 			o.o, _ = strconv.ParseInt(t[2], 10, 64)
@@ -329,6 +370,7 @@ type shadowT struct {
 }
 
 type env struct {
+	fq     []fattT // fault script of the running ManagePartition (initial fetch)
 	group  string
 	mu     sync.Mutex
 	c      *caseT
@@ -378,6 +420,13 @@ func (c *fakeClient) RefreshCoordinator(g string) error {
 	if e.single >= 0 {
 		if e.single == 0 {
 			e.single = -1
+			return errLookup
+		}
+		return nil
+	}
+	if len(e.fq) > 0 {
+		if !e.fq[0].lk {
+			e.fq = e.fq[1:]
 			return errLookup
 		}
 		return nil
@@ -566,6 +615,28 @@ func onFetch(req *sarama.OffsetFetchRequest) *sarama.OffsetFetchResponse {
 		e.mu.Lock()
 		defer e.mu.Unlock()
 	}
+	ans := "ok"
+	if e != nil && req.ConsumerGroup == e.group && len(e.fq) > 0 {
+		ans = e.fq[0].ans
+		e.fq = e.fq[1:]
+	}
+	switch {
+	case ans == "fe":
+		return sarama.VerifC06GarbageFetch
+	case ans == "x":
+		return resp
+	case ans != "ok":
+		code := map[string]int{"nc": 16, "ld": 14}[ans]
+		if strings.HasPrefix(ans, "k") {
+			code = hlib.Atoi(ans[1:])
+		}
+		for t, ps := range sarama.VerifC06FetchPartitions(req) {
+			for _, p := range ps {
+				resp.AddBlock(t, p, &sarama.OffsetFetchResponseBlock{Offset: -1, Err: sarama.KError(code)})
+			}
+		}
+		return resp
+	}
 	for t, ps := range sarama.VerifC06FetchPartitions(req) {
 		for _, p := range ps {
 			blk := &sarama.OffsetFetchResponseBlock{Offset: -1}
@@ -730,17 +801,42 @@ func (e *env) doOp(o opT) (string, bool) {
 		var err error
 		e.mu.Lock()
 		want := fetchedOf(e.store[o.p])
+		if o.hasF {
+			if e.c.real {
+				e.mu.Unlock()
+				return "", false
+			}
+			e.fq = append([]fattT{}, o.fatts...)
+			e.conf.Metadata.Retry.Max = o.fr // read by ManagePartition at call time
+		}
 		e.mu.Unlock()
 		if !guarded(func() { pom, err = e.om.ManagePartition(t, p) }) {
 			run.IOFail("timeout", e.line, "ManagePartition did not return")
 			return "timeout", false
 		}
+		e.mu.Lock()
+		e.fq = nil
+		e.conf.Metadata.Retry.Max = 0
+		e.mu.Unlock()
 		if err != nil {
 			var ce sarama.ConfigurationError
-			if errors.As(err, &ce) {
+			var ke sarama.KError
+			switch {
+			case errors.As(err, &ce):
 				return e.fin("dup"), true
+			case errors.Is(err, errLookup):
+				return e.fin("mgerr LK"), true
+			case errors.Is(err, sarama.ErrIncompleteResponse):
+				return e.fin("mgerr INC"), true
+			case errors.As(err, &ke):
+				return e.fin(fmt.Sprintf("mgerr K%d", int(ke))), true
 			}
-			return e.fin("mgerr " + err.Error()), true
+			return e.fin("mgerr IO"), true
+		}
+		// NextOffset spec at the source: a new pom starts at what the coordinator holds (or -1/"" when nothing is stored)
+		if of, md, _, _ := sarama.VerifC06PomState(pom); (pair{of, metaCode(md)}) != want {
+			run.IOFail("managed-position-is-not-the-stored-one", e.line,
+				fmt.Sprintf("partition %d: ManagePartition succeeded with %s, coordinator holds %s", o.p, showPair(pair{of, metaCode(md)}), showPair(want)))
 		}
 		e.poms[o.p] = pom
 		e.sh[o.p] = shadowT{have: true, pend: want, allowed: map[pair]bool{want: true}, epoch: e.sh[o.p].epoch}
@@ -947,6 +1043,7 @@ func runCase(c *caseT) string {
 		conf.Consumer.Offsets.Retention = 3 * time.Second
 	}
 	conf.Metadata.Retry.Max = 0
+	conf.Metadata.Retry.Backoff = time.Millisecond
 	conf.ChannelBufferSize = 1024
 	n := len(c.stores)
 	e := &env{group: nextGroup(), c: c, line: line, conf: conf, single: -1, poms: make([]sarama.PartitionOffsetManager, n),
@@ -1168,7 +1265,12 @@ func genWire(r *hlib.Rand) *caseT {
 		case x < 92:
 			c.ops = append(c.ops, opT{kind: "ac", p: r.Intn(n)})
 		default:
-			c.ops = append(c.ops, opT{kind: "mg", p: r.Intn(n)})
+			mg := opT{kind: "mg", p: r.Intn(n)}
+			if r.Chance(1, 2) {
+				mg.hasF = true
+				mg.fr, mg.fatts = genFetchScript(r, r.Chance(1, 3))
+			}
+			c.ops = append(c.ops, mg)
 		}
 	}
 	if r.Chance(4, 5) {
@@ -1288,6 +1390,68 @@ func genConnFail(r *hlib.Rand, real bool) *caseT {
 	return c
 }
 
+func genFetchScript(r *hlib.Rand, exhaust bool) (int, []fattT) {
+	fr := r.Intn(3)
+	var atts []fattT
+	retry := []string{"nc", "ld", "fe"}
+	n := fr + 1
+	for k := 0; k < n; k++ {
+		a := fattT{lk: !r.Chance(1, 6), ans: retry[r.Intn(3)]}
+		if !exhaust && (k == n-1 || r.Chance(1, 4)) {
+			a.ans = []string{"ok", "ok", "ok", "x", "k3", "k29"}[r.Intn(6)]
+			atts = append(atts, a)
+			break
+		}
+		atts = append(atts, a)
+	}
+	if r.Chance(1, 5) { // entries beyond the budget must not be consumed
+		atts = append(atts, fattT{lk: true, ans: "ok"})
+	}
+	return fr, atts
+}
+
+// initial-fetch fault sequences: ManagePartition meets coordinator-moved / offsets-loading / request errors /
+// lookup failures, in half of the cases for longer than Metadata.Retry.Max allows (it must then return the
+// error and create no pom); afterwards the partition is managed normally, NextOffset is read, offsets below and
+// above the stored one are marked, committed, and the manager is closed.
+func genFetchFaults(r *hlib.Rand) *caseT {
+	c := genHeader(r)
+	n := len(c.stores)
+	for i := range c.stores { // mostly something stored, so that a made-up start position shows
+		if r.Chance(3, 4) {
+			c.stores[i] = &pair{int64(r.Range(3, 9)), r.Intn(3)}
+		}
+	}
+	allOK := attT{lk: 1, rep: repT{kind: "r", vs: make([]int, n)}}
+	for i := 0; i < n; i++ {
+		fr, atts := genFetchScript(r, r.Chance(1, 2))
+		c.ops = append(c.ops, opT{kind: "mg", p: i, hasF: true, fr: fr, fatts: atts})
+		c.ops = append(c.ops, opT{kind: "nx", p: i})
+		if r.Chance(3, 4) {
+			c.ops = append(c.ops, opT{kind: "mg", p: i})
+		}
+	}
+	for k := r.Range(2, 8); k > 0; k-- {
+		switch r.Intn(4) {
+		case 0:
+			c.ops = append(c.ops, opT{kind: "nx", p: r.Intn(n)})
+		case 1:
+			c.ops = append(c.ops, opT{kind: "cm", atts: []attT{allOK}})
+		default:
+			c.ops = append(c.ops, opT{kind: "mk", p: r.Intn(n), o: int64(r.Range(1, 12)), m: r.Intn(4)})
+		}
+	}
+	c.ops = append(c.ops, opT{kind: "cm", atts: []attT{allOK}})
+	cl := opT{kind: "cl"}
+	if c.auto {
+		for k := 0; k <= c.rmax; k++ {
+			cl.atts = append(cl.atts, allOK)
+		}
+	}
+	c.ops = append(c.ops, cl)
+	return c
+}
+
 // the random wire generator with the real sarama client (lookups cannot fail then)
 func genWireReal(r *hlib.Rand) *caseT {
 	c := genWire(r)
@@ -1299,6 +1463,7 @@ func genWireReal(r *hlib.Rand) *caseT {
 	}
 	for i := range c.ops {
 		fix(c.ops[i].atts)
+		c.ops[i].hasF, c.ops[i].fatts = false, nil
 	}
 	return c
 }
@@ -1517,6 +1682,9 @@ func main() {
 	}
 	for i := 0; i < n/8; i++ {
 		emitCase(genWireReal(rnd), "wire-random-real-client")
+	}
+	for i := 0; i < n/8+150; i++ {
+		emitCase(genFetchFaults(rnd), "wire-initial-fetch-faults")
 	}
 	for i := 0; i < n/2; i++ {
 		emitCase(genFine(rnd), "fine-random")
